@@ -6,7 +6,8 @@
 // in : embed method=<Ident> neighbors_method=<Ident> eigen_method=<Ident> computation_strategy=<Ident> num_neighbors=<int> …
 //            (one field per keyword of the CLI's kwargs set; numbers as decimal text read with strtod, as the CLI does)
 //            data=<D>x<N>:<v11,v12,…>   (row-major D × N, columns are samples)
-// out: ok|N|d|e11,e12,…|-                       (no projection)
+// out: (each prefixed by `r1 ` if the call consumed std::rand(), `r0 ` otherwise)
+//      ok|N|d|e11,e12,…|-                       (no projection)
 //      ok|N|d|e11,…|D|d|p11,…|m1,…             (MatrixProjectionImplementation)
 //      exc|<exception text, blanks as _>
 // in : fmt nums=<m:e>,…        out: `os << double` per number, hex encoded
@@ -85,8 +86,11 @@ static std::string nums(const double* p, size_t n)
     return o.empty() ? "-" : o;
 }
 
+static bool rand_consumed = false;
+
 static std::string do_embed(std::map<std::string, std::string>& f)
 {
+    rand_consumed = false;
     auto need = [&](const char* k) -> const std::string& {
         auto it = f.find(k);
         if (it == f.end())
@@ -125,7 +129,14 @@ static std::string do_embed(std::map<std::string, std::string>& f)
         tapkee::sne_perplexity = dec(need("sne_perplexity")),
         tapkee::sne_theta = dec(need("sne_theta")),
         tapkee::squishing_rate = dec(need("squishing_rate")))];
+    // every CLI process starts the shuffle generator from its fixed seed
+    tapkee::verif_shuffle_generator().seed(5489u);
+    // did the method draw from std::rand()?  (the CLI seeds it from time(): such results are comparable on shape only)
+    std::srand(20240607u);
+    const int first_draw = std::rand();
+    std::srand(20240607u);
     TapkeeOutput output = tapkee::with(parameters).embedUsing(X);
+    rand_consumed = std::rand() != first_draw;
     // row-major N × d
     DenseMatrix E = output.embedding;
     std::string o = "ok|" + std::to_string(E.rows()) + "|" + std::to_string(E.cols()) + "|";
@@ -167,6 +178,7 @@ int main()
                 try
                 {
                     out = do_embed(f);
+                    out = std::string(rand_consumed ? "r1 " : "r0 ") + out;
                 }
                 catch (const std::exception& e)
                 {
